@@ -91,3 +91,16 @@ contract(
     params={"scenario": P.str(), "position": P.int(0, 65535)}, enum=_positions, callsite=False, props=["C17"],
     bounded="whole-driver histories (which packet objects reach the socket, in which order) are not within reach of a per-function "
             "contract; six operation scenarios x every counter phase around the wrap are monitored on the real driver instead")
+
+# open() on a driver that is already open leaves the running count alone: the connected message after it still differs from the one before
+contract(
+    id="sequence.open_again", func="pycomm3.cip_driver.CIPDriver.open", call="d.open()",
+    bind={"before": ["1", "2", "3"]}, params={"session": P.int(1, 0xFFFFFFFF), "cid": P.bytes(len=4)},
+    setup=["d = pycomm3.cip_driver.CIPDriver('10.0.0.1')", "t = spec.env.Transport([spec.msgrouter.connected_reply(0x0e, 0, b'ok')] * (before + 1))",
+           "d._sock = t", "d._connection_opened = True", "d._session = session", "d._target_cid = cid", "d._target_is_connected = True",
+           "msgs = [d.generic_message(service=0x0e, class_code=1, instance=1, attribute=1) for _ in range(before)]",
+           "count = lambda k: spec.encap.try_parse_frame(t.sent[k])[3][2]"],
+    ensures=["result == True", "bool(d.generic_message(service=0x0e, class_code=1, instance=1, attribute=1))",
+             "len(t.sent) == before + 1", "count(before) != count(before - 1)",
+             "count(before) == spec.seq.successor(count(before - 1), 1, 65535)"],
+    props=["C17", "C10"])
